@@ -104,15 +104,19 @@ CLAIMED = {
     technique="Lean 4 proof of a mirror model + differential correspondence check on operation histories"),
  "C06": dict(
     category="translation_validation",
-    text="Per generated machine-code program and state: the function recovered by the real translate_function_extended is executed by "
-         "falcon's executor and compared - address trace, final registers, memory and next pc - with the single-step reference (lift one "
-         "instruction at pc with the same translator, run it, follow its successors), both runs being recomputed in Lean from the dumped "
-         "IL with the Lean IL semantics; the structural clauses (no dangling edge or entry, entry block at the function address, every "
-         "instruction exactly once) are decided by a Lean checker with a soundness theorem. The assembly algorithm itself is not modelled.",
+    text="Two parts. (1) A Lean mirror of translate_function_extended (work-list discover + assemble on the C15 CfgEdit operations) with "
+         "theorems for ALL translation tables: the assembled function is well formed (no edge or entry names a missing block), its entry "
+         "is the graph inserted for the function address, every instruction address is inserted exactly once, the final merge preserves "
+         "the language from the entry, the work list is closed under successors and manual edges, and assemble never panics after "
+         "discover; the mirror is compared by exact FIL equality with the function falcon returns, on real programs and on adversarial "
+         "synthetic translation tables. (2) The execution clause is validated per program: the recovered function is executed by falcon's "
+         "executor and compared - address trace, final registers, memory, next pc - with the single-step reference (lift one instruction "
+         "at pc with the same translator, run it, follow its successors), both recomputed in Lean from the dumped IL.",
     design_ref="DESIGN.md §6 C06",
-    note="Validation of sampled programs (MIPS/MIPSEL/x86/amd64 mini-assemblers, window-straddling layouts, branches into lifted blocks, "
-         "manual edges), not a proof over all programs. Per-instruction lifting is shared by both sides, so instruction semantics cancel out.",
-    technique="per-program trace validation with Lean IL semantics + Lean-verified structural checker"),
+    note="The execution bisimulation (asm_simulates) is NOT proved: executions are validated on generated MIPS/MIPSEL/x86/amd64 programs "
+         "(window-straddling layouts, branches into lifted blocks, manual edges). Per-instruction lifting is shared by both sides, so "
+         "instruction semantics cancel out. Known finding: MIPS branch into another branch's delay slot.",
+    technique="Lean 4 mirror of the assembly algorithm + theorems; exact structural correspondence; per-program trace validation"),
  "C07": dict(
     category="proof",
     text="Lean theorems over a mirror model of State::execute / Driver::step: execute = OpSem for typed operations; step = the relational "
